@@ -7,8 +7,9 @@ PROP_FILES = ["Properties_C11"]
 TRUSTED = BASE_TRUSTED + [
     "modelled: segment_index_of/segment_base/segment_size and the size bookkeeping of push_back/grow_by/grow_to_at_least "
     "(one atomic RMW on my_size fixes a call's range, so interleavings = call sequences)",
-    "modelled, not verified: segment allocation protocol (first-block election, table extension, failure tagging) — covered only by "
-    "the real-thread oracle runs of this check; element construction is observed through an allocator-level construct() hook",
+    "modelled, not verified: segment allocation protocol (first-block election, table extension, failure tagging) — explored (not proved) by "
+    "running the real vector under the deterministic atomic-access gate with a throwing allocator and by real-thread oracle runs; "
+    "element construction is observed through an allocator-level construct() hook",
 ]
 
 
@@ -135,10 +136,86 @@ def run(ctx):
                             {"tie": "vec-mt", "args": ["mt", T, ctx.seed * 100000 + r, 60]}))
             break
     ctx.ties.append({"name": "vec-mt (oracle only)", "cases": nruns, "disagreements": bad})
+    run_gate(ctx)
     ctx.rules.append("vec-mt: 2-4 real threads x 60 random growth calls on one vector; oracle = ranges tile [0,size), each element holds its call's value, nothing below n unconstructed after grow_to_at_least")
 
 
+PRELUDE = vlib.os.path.join(vlib.VERIF, "harness", "prelude", "verif_atomic.h")
+GOPS = {0: "grow_by", 1: "push_back", 2: "grow_to_at_least"}
+
+
+def gate_describe(c):
+    failk, n = c[0], c[1]
+    p = 2
+    parts = []
+    for t in range(n):
+        ln = c[p]
+        ops = c[p + 1:p + 1 + 2 * ln]
+        parts.append("T%d: %s" % (t, ",".join("%s(%d)" % (GOPS[ops[i]], ops[i + 1]) for i in range(0, len(ops), 2))))
+        p += 1 + 2 * ln
+    return "allocator throws at element-allocation #%d; %s; schedule=%s" % (failk, " || ".join(parts), "".join(map(str, c[p + 1:])))
+
+
+def gate_oracle(c, toks):
+    if toks and toks[0].startswith("CRASH"):
+        return ("vec-gate-crash", gate_describe(c) + ": " + " ".join(toks)[:120])
+    def val(k):
+        return int(toks[toks.index(k) + 1]) if k in toks else 0
+    if val("WILD"):
+        return ("vec-construct-in-unallocated-memory", "%s: %d element(s) constructed outside any live allocation" % (gate_describe(c), val("WILD")))
+    if val("DOUBLE"):
+        return ("vec-element-constructed-twice", "%s: an element address was constructed twice" % gate_describe(c))
+    if val("ACCBAD"):
+        return ("vec-access-unallocated", "%s: at(i) returned an address outside live memory" % gate_describe(c))
+    if toks and toks[-1] == "HANG":
+        if c[0] < 0:
+            return ("vec-growth-hangs", "%s: growth calls never finish although no allocation failed" % gate_describe(c))
+        return None   # after an injected allocation failure a *growth* call of another thread may wait forever; outside the property text
+    # (LEAK = allocations not returned by the destructor after an injected failure is reported by the driver but is not part of the property text)
+    return None
+
+
+def gen_gate(ctx, n):
+    rng = ctx.rng
+    cases = []
+    for _ in range(n):
+        T = rng.randint(2, 3)
+        failk = rng.choice([-1, -1, 0, 1, 1, 2, 2, 3, 4])
+        c = [failk, T]
+        for t in range(T):
+            ln = rng.randint(1, 4)
+            ops = []
+            for _ in range(ln):
+                op = rng.choice([0, 1, 1, 2])
+                a = rng.choice([1, 2, 3, 5, 7, 9, 17]) if op == 0 else (rng.choice([2, 4, 8, 9, 16, 17, 20, 33]) if op == 2 else 0)
+                ops += [op, a]
+            c += [ln] + ops
+        c.append(-1)
+        sched = []
+        while len(sched) < rng.randint(20, 160):
+            sched += [rng.randrange(T)] * rng.randint(1, 9)
+        cases.append(c + sched)
+    return cases
+
+
+def run_gate(ctx):
+    lib, err = ctx.build_lib("tbb")
+    exe, err = ctx.build_driver("drv_vecgate", extra=["-include", PRELUDE], libs=[lib])
+    if err:
+        return ctx.broken("drv_vecgate build (concurrent_vector under the atomic prelude)", err)
+    ctx.rules.append("vec-gate: 2-3 logical threads growing one concurrent_vector under seeded bursty interleavings of its atomic accesses, element allocator throwing at "
+                     "allocation #k (k in -1..4); oracle = no construction outside live memory, no element constructed twice, at(i) works or throws, the destructor runs, "
+                     "no hang unless an allocation failed")
+    vlib.oracle_tie(ctx, "vec-gate", exe, [], gen_gate(ctx, ctx.scale(1200, 40000)), gate_oracle, describe=gate_describe,
+                    bucket=lambda c: "vec-gate failk=%d" % c[0], timeout=1800)
+
+
 def replay(ctx, rep):
+    if rep.get("tie") == "vec-gate":
+        lib, err = ctx.build_lib("tbb")
+        exe, err = ctx.build_driver("drv_vecgate", extra=["-include", PRELUDE], libs=[lib])
+        vlib.oracle_tie(ctx, "vec-gate", exe, [], [rep["case"]], gate_oracle, describe=gate_describe)
+        return
     lib, err = ctx.build_lib("tbb")
     exe, err = ctx.build_driver("drv_vec", libs=[lib], opt="-O2")
     if rep.get("tie") == "vec-mt":
